@@ -46,7 +46,7 @@ def klClass (n : Nat) (gs sp : List MP) (p : MP) : Char :=
   if gs.any (fun g => MP.acomm g p) then 'a' else
   match sp.find? (fun s => s.x == p.x && s.z == p.z) with
   | some s => "0123".toList.getD ((p.k + 4 - s.k % 4) % 4) '?'
-  | none => let _ := n; 'f'
+  | none => let _ := n; 'F'
 
 def handle (args : List String) : String :=
   match args with
